@@ -7,6 +7,7 @@
    file instance, key ".internal{k}.name"; ELocal: local label, key ".local{j}.name"). *)
 From Coq Require Import String Ascii List ZArith NArith Bool Sorted Permutation.
 From Verif Require Import Base.Res Spec.Listing Model.ListingM Proofs.ListingP Proofs.ListingPathP Proofs.ListingCheckP.
+From Verif Require Model.Block Proofs.BlockP Proofs.ListingBlock.
 Import ListNotations.
 Open Scope string_scope.
 
@@ -95,6 +96,19 @@ Theorem C19_label_is_image_address_partial :
   forall bs, listing_of syms bs -> points_into_image base bs placed.
 Proof. exact label_is_image_address_lemma. Qed.
 Print Assumptions C19_label_is_image_address_partial.
+
+(* ... and composed with C02 (Proofs/ListingBlock.v): for the labels of a block whose statements announce
+   their true sizes, that hypothesis is C02's address invariant, so the statement holds outright:
+   every listed label's address is where the byte following that label lies in the image *)
+Theorem C19_label_is_image_address :
+  forall (l : list Block.stmt) (base : Z) (syms : list sym) (placed : list (sym * nat)),
+  Block.consistent_list l = true ->
+  (forall s off, In (s, off) placed ->
+      In s syms /\ exists pre post, Block.place_list base l = (pre ++ (s_value s, []) :: post)%list
+                                   /\ off = List.length (BlockP.bytes_of pre)) ->
+  forall bs, listing_of syms bs -> points_into_image base bs placed.
+Proof. exact ListingBlock.listed_labels_point_into_image. Qed.
+Print Assumptions C19_label_is_image_address.
 
 (* --lst: the listing goes beside the output file, named after it: a trailing ".<format>" is
    replaced by ".lst", otherwise ".lst" is appended; output on stdout gives "listing.lst" *)
